@@ -461,7 +461,8 @@ func TestDecisionTable(t *testing.T) {
 			}
 			if loader == "document" || loader == "stream" {
 				for j := range sel {
-					cc.Seps = append(cc.Seps, []string{"\n", "// é comment\n  ", "\n\n\t", " "}[(idx+j)%4])
+					// (the fifth separator is longer than the tokenizer's read buffer: later policies start beyond 1 KiB, 2 KiB, ...)
+					cc.Seps = append(cc.Seps, []string{"\n", "// é comment\n  ", "\n\n\t", " ", "/* " + strings.Repeat("pad ", 530) + "*/\n"}[(idx+j)%5])
 				}
 			}
 			runCase(&cc, "table", cell, fail)
